@@ -612,6 +612,12 @@ class Runner:
                     self.t.get_value((x, y))
                     self.labels.add("strip-probe-on-trailing-empties")
                 row.rstrip(aggressive=bool(e.get("aggr")))
+            elif k == "delete_probe" and w:
+                # every cell of the stored row read (through the row and through the table), then one cell deleted
+                for x_ in range(w):
+                    row.get_cell(x_)
+                    self.t.get_value((x_, y))
+                row.delete_cell(e["kx"] % w)
             elif k == "rstrip":
                 row.rstrip(aggressive=bool(e.get("aggr")))
             elif k == "set_value" and w:
@@ -1217,6 +1223,8 @@ def make_machine(ctx, mode, corpus_specs=(), warm_weight=1):
                 st.fixed_dictionaries({"k": st.just("strip_probe"), "aggr": st.booleans()}),
                 st.fixed_dictionaries({"k": st.just("strip_probe"), "aggr": st.booleans()}),
                 st.fixed_dictionaries({"k": st.just("strip_probe"), "aggr": st.just(True)}),
+                st.fixed_dictionaries({"k": st.just("delete_probe"), "kx": kx}),
+                st.fixed_dictionaries({"k": st.just("delete_probe"), "kx": kx}),
                 st.fixed_dictionaries({"k": st.just("rstrip"), "aggr": st.booleans()}),
                 st.fixed_dictionaries({"k": st.just("rstrip"), "aggr": st.booleans()}),
                 st.fixed_dictionaries({"k": st.just("set_value"), "kx": kx, "v": vi}),
